@@ -163,13 +163,17 @@ C05_Q = [
     H("n5_resolve_s0", NSK + "resolve element/attribute names l, q:l, xml:l, xmlns:l; shape default,p,p-unbound", ["prefix bound through 3 bindings"], cost=3),
     H("n5_resolve_s1", NSK + "resolve; shape p,default,default-removed", ["default removed"], cost=3),
     H("n5_resolve_s2", NSK + "resolve; shape p,q,r (shadowing)", ["prefix bound through 3 bindings"], cost=3),
-    H("n5_popiter_s0", NSK + "prefixes() listing + pop; shape default,p,p-unbound", ["pop drops some and keeps some"], cost=3),
-    H("n5_popiter_s1", NSK + "prefixes() listing + pop; shape p,default,default-removed", ["pop drops some and keeps some"], cost=3),
-    H("n5_popiter_s2", NSK + "prefixes() listing + pop; shape p,q,r", ["pop drops some and keeps some"], cost=3),
+    H("n5_pop_s0", NSK + "pop(); shape 0", ["pop drops some and keeps some"], cost=3),
+    H("n5_iter_s0", NSK + "prefixes() listing, <=2 user bindings; shape 0", ["two prefixes listed"], cost=4),
+    H("n5_pop_s1", NSK + "pop(); shape 1", ["pop drops some and keeps some"], cost=3),
+    H("n5_iter_s1", NSK + "prefixes() listing, <=2 user bindings; shape 1", ["two prefixes listed"], cost=4),
+    H("n5_pop_s2", NSK + "pop(); shape 2", ["pop drops some and keeps some"], cost=3),
+    H("n5_iter_s2", NSK + "prefixes() listing, <=2 user bindings; shape 2", ["two prefixes listed"], cost=4),
 ]
 C05_T = [
     H("n5_resolve_s3", NSK + "resolve; shape default,default,p", [], cost=3),
-    H("n5_popiter_s3", NSK + "listing + pop; shape default,default,p", [], cost=3),
+    H("n5_pop_s3", NSK + "pop(); shape 3", [], cost=3),
+    H("n5_iter_s3", NSK + "prefixes() listing; shape 3", [], cost=4),
 ]
 
 C19_Q = [
